@@ -31,8 +31,8 @@ def IKinSpaceConstrained(screw_list, ee_home, ee_goal, theta_list,
     error_vec = np.dot(Adjoint(ee_current),
             se3ToVec(MatrixLog6(np.dot(TransInv(ee_current), ee_goal))))
     #print(mhp.MatrixLog6(np.dot(mhp.TransInv(ee_current), ee_goal)), "Test")
-    error_bool = (np.linalg.norm(error_vec[0:3]) > position_tolerance or
-            np.linalg.norm(error_vec[3:6]) > rotation_tolerance)
+    error_bool = (np.linalg.norm(error_vec[0:3]) > rotation_tolerance or
+            np.linalg.norm(error_vec[3:6]) > position_tolerance)
     #if np.isnan(error_vec).any():
     #    error_bool = True
     i = 0
@@ -50,8 +50,8 @@ def IKinSpaceConstrained(screw_list, ee_home, ee_goal, theta_list,
         ee_current = FKinSpace(ee_home, screw_list, theta_list)
         error_vec = np.dot(Adjoint(ee_current),
                 se3ToVec(MatrixLog6(np.dot(TransInv(ee_current), ee_goal))))
-        error_bool = (np.linalg.norm(error_vec[0:3]) > position_tolerance or
-                np.linalg.norm(error_vec[3:6]) > rotation_tolerance)
+        error_bool = (np.linalg.norm(error_vec[0:3]) > rotation_tolerance or
+                np.linalg.norm(error_vec[3:6]) > position_tolerance)
         #if np.isnan(error_vec).any():
         #    error_bool = True
     success = not error_bool
